@@ -37,6 +37,10 @@ def run(ctx):
     r311(ctx, core)
     r313(ctx, core)
     r317(ctx)
+    r319(ctx, core)
+    r320(ctx)
+    from . import c17 as _c17
+    _c17.r176(ctx, 'R3.21')
     from . import c01 as _c01b, callsigs as _csb
     _c01b.r16(ctx, core)
     _csb.scratch_buffer_rule(ctx, 'R3.18')
@@ -488,3 +492,76 @@ def r317(ctx, rule='R3.17'):
                     ctx.ob(rule, '%s.%s:leaf-test-treats-absent-and-zero-children-alike:%s' % (mname, q, norm(x)[:40]), ok,
                            '`%s`: some writers put num_children=0 on leaves; a test for one spelling only takes their leaves for groups' % norm(x), m.loc(x))
     ctx.floor(rule, 'tests of num_children', n, 2)
+
+
+def r319(ctx, core, rule='R3.19'):
+    """v1 data pages, values in RLE / dictionary form: RLE data values (booleans) carry a 4-byte length prefix and no
+    bit-width byte - the reader skips the prefix, as the v2 reader does; dictionary indices always start with their
+    bit-width byte, whatever the column's physical type"""
+    f = core.func('read_data_page')
+    arms = [x for x in ast.walk(f) if isinstance(x, ast.If) and norm(x.test) == 'daph.encoding == parquet_thrift.Encoding.RLE']
+    ok = False
+    d = 'no arm for RLE data values'
+    for a in arms:
+        skips = [c for c in ast.walk(ast.Module(body=a.body, type_ignores=[])) if isinstance(c, ast.Call) and (callee(c) or '').endswith('.seek')
+                 and len(c.args) == 2 and norm(c.args[0]) == '4' and norm(c.args[1]) == '1']
+        reads = [st for st in a.orelse if isinstance(st, ast.Assign) and norm(st.targets[0]) == 'bit_width' and 'read_byte()' in norm(st.value)]
+        if skips and reads:
+            ok = True
+        d = 'RLE arm skips the prefix: %s; other arm reads the width byte unconditionally: %s' % (bool(skips), bool(reads))
+    ctx.ob(rule, 'core.read_data_page:RLE-values-skip-their-length-prefix-and-indices-read-their-width', ok, d, core.loc(f))
+    g = core.func('read_data_page_v2')
+    v2 = [c for c in ast.walk(g) if isinstance(c, ast.Call) and (callee(c) or '').endswith('.seek') and len(c.args) == 2
+          and norm(c.args[0]) == '4' and norm(c.args[1]) == '1']
+    ctx.ob(rule, 'core.read_data_page_v2:RLE-values-skip-their-length-prefix', len(v2) == 1, '', core.loc(g))
+
+
+def r320(ctx, rule='R3.20'):
+    """converted_types.convert, DECIMAL from byte strings: slicing the raw memory (`data.data[...]`) is only meaningful
+    for fixed-width string arrays; object arrays of bytes are handled before it.  And core.read_data_page_v2 decodes
+    delta pages in place only when the decoded item size is the output's"""
+    ct = ctx.repo['converted_types']
+    f = ct.func('convert')
+    raws = [x for x in walk_no_nested(f) if isinstance(x, ast.Subscript) and norm(x.value) == 'data.data']
+    ctx.floor(rule, 'raw-memory slices in convert', len(raws), 1)
+    for x in raws:
+        blk = None
+        for b in _blocks(f.body):
+            if any(any(y is x for y in ast.walk(st)) for st in b):
+                blk = b
+        before_ = []
+        for st in blk or []:
+            if any(y is x for y in ast.walk(st)):
+                break
+            before_.append(st)
+        ok = any(isinstance(st, ast.If) and "data.dtype == 'O'" in norm(st.test) and any(isinstance(r, ast.Return) for r in st.body) for st in before_)
+        ctx.ob(rule, 'converted_types.convert:raw-memory-slice-only-for-fixed-width-arrays', ok,
+               '`%s`: for an object array data.data is the memory of the object pointers' % norm(x), ct.loc(x))
+    core = ctx.repo['core']
+    g = core.func('read_data_page_v2')
+    cfg = CFG(g)
+    n = 0
+    for c in walk_no_nested(g):
+        if isinstance(c, ast.Call) and (callee(c) or '').endswith('delta_binary_unpack') and len(c.args) >= 2 and 'assign[' in norm(c.args[1]):
+            n += 1
+            st = None
+            for nd in cfg.nodes:
+                if nd.stmt is not None and any(y is c for y in ast.walk(nd.stmt)) and not isinstance(nd.stmt, (ast.If, ast.For, ast.While, ast.Try, ast.With)):
+                    st = nd.stmt
+            tests = ' && '.join(norm(e.test) for e, fld in cfg.enclosing_tests(st) if isinstance(e, ast.If) and fld == 'body') if st is not None else ''
+            ctx.ob(rule, 'core.read_data_page_v2:in-place-delta-decode-only-into-same-item-size', 'see' in tests.split() or ' see ' in (' ' + tests.replace('(', ' ').replace(')', ' ') + ' '),
+                   'guards: %s - a 4-byte decode into an 8-byte (datetime, timedelta, int64) output overwrites its slots' % tests[:160], core.loc(c))
+    ctx.floor(rule, 'in-place delta decodes', n, 1)
+
+
+def _blocks(stmts):
+    yield stmts
+    for st in stmts:
+        if isinstance(st, (ast.FunctionDef, ast.AsyncFunctionDef, ast.ClassDef)):
+            continue
+        for fld in ('body', 'orelse', 'finalbody'):
+            sub = getattr(st, fld, None)
+            if isinstance(sub, list) and sub:
+                yield from _blocks(sub)
+        for h in getattr(st, 'handlers', []) or []:
+            yield from _blocks(h.body)
